@@ -143,12 +143,12 @@ class Collector:
 
 
 def _worker_entry(args):
-    modname, fname, item, tier, seed = args
+    modname, fname, item, tier, seed, prop = args
     setup_repo_path()
     import importlib
     mod = importlib.import_module(modname)
     col = Collector()
-    col.classifier = make_classifier(mod, getattr(mod, 'PROPERTY'))
+    col.classifier = make_classifier(importlib.import_module('verif.props.%s' % prop.lower()), prop)
     try:
         getattr(mod, fname)(col, item, tier, seed)
     except HarnessError:
@@ -177,7 +177,7 @@ class Context(Collector):
         items = list(items)
         if not items:
             return
-        args = [(module, fname, it, self.tier, self.seed) for it in items]
+        args = [(module, fname, it, self.tier, self.seed, self.prop) for it in items]
         if self.jobs <= 1 or len(items) == 1:
             for a in args:
                 self.merge(_worker_entry(a))
